@@ -1,0 +1,5 @@
+//go:build !verif
+
+package packet
+
+func verifReceive(*Writer, *Reader, *Packet) func() { return func() {} }
